@@ -1013,7 +1013,116 @@ impl Child {
     }
 }
 
+static PROBE_ADDS: std::sync::atomic::AtomicUsize = std::sync::atomic::AtomicUsize::new(0);
+
+fn probe_filter_store(k: OpKind, p: &str) -> bool { k == OpKind::OpenWrite && p.ends_with(".store") }
+fn probe_filter_fast(k: OpKind, p: &str) -> bool { k == OpKind::OpenWrite && p.ends_with(".fast") }
+fn probe_filter_fieldnorm(k: OpKind, p: &str) -> bool { k == OpKind::OpenWrite && p.ends_with(".fieldnorm") }
+
+/// Saturated pipeline: the only indexing worker is parked (by the VDir hook) in the storage
+/// operation that is going to fail, until the producer has filled the bounded document channel
+/// and is blocked inside `add_document`; then the operation fails and the worker dies. The death
+/// of the worker must disconnect the pipeline: the blocked `add_document` returns `Err` (and so
+/// does every later one); the writer can be dropped and a new writer continues.
+fn saturate_probe(ctx: &mut Ctx, case: &Value) {
+    use std::sync::atomic::Ordering;
+    let out_path = PathBuf::from(case["out"].as_str().expect("out"));
+    let cap: usize = ctx.model.ask("C11 cap").parse().expect("C11 cap");
+    let variant = case["variant"].as_u64().unwrap_or(0);
+    let (schema, idf, body) = schema();
+    let vdir = VDir::new();
+    let index = Index::create(vdir.clone(), schema, IndexSettings::default()).expect("index creation (not faulted)");
+    let mut violations: Vec<Value> = vec![];
+    let mut viol = |key: &str, what: String| violations.push(json!({"kind": "oracle", "key": key, "what": what}));
+    let opts = IndexWriterOptions::builder().num_worker_threads(1).memory_budget_per_thread(15_000_000).num_merge_threads(1).build();
+    let mut writer: IndexWriter = index.writer_with_options(opts).expect("writer (not faulted)");
+    writer.set_merge_policy(Box::new(NoMergePolicy));
+    let target = cap + 2; // 1 batch held by the worker + `cap` queued + 1 blocked in send
+    vdir.set_hook(Some(Arc::new(move |r: &OpRec| {
+        if r.faulted && r.thread.starts_with("thrd-tantivy-index") {
+            let t0 = Instant::now();
+            while PROBE_ADDS.load(Ordering::SeqCst) < target && t0.elapsed() < Duration::from_secs(20) {
+                std::thread::sleep(Duration::from_millis(2));
+            }
+            // leave the producer the time to really block inside add_document
+            std::thread::sleep(Duration::from_millis(300));
+        }
+    })));
+    vdir.with_state(|s| {
+        s.fault_filter = Some(match variant % 3 { 0 => probe_filter_store, 1 => probe_filter_fast, _ => probe_filter_fieldnorm });
+        s.faultable_seen = 0;
+        s.fail_at = Some((0, false));
+    });
+    let mut first_err: Option<usize> = None;
+    let mut panicked = false;
+    for i in 0..cap + 50 {
+        PROBE_ADDS.fetch_add(1, Ordering::SeqCst);
+        let mut d = TantivyDocument::default();
+        d.add_u64(idf, i as u64);
+        let r = catch_unwind(AssertUnwindSafe(|| writer.add_document(d)));
+        match r {
+            Ok(Ok(_)) => {}
+            Ok(Err(_)) => {
+                first_err = Some(i);
+                break;
+            }
+            Err(_) => {
+                panicked = true;
+                break;
+            }
+        }
+    }
+    let injected = vdir.with_state(|s| s.faults_injected);
+    if panicked {
+        viol("C11:panic-in-add", "add_document panicked while the pipeline was saturated".into());
+    }
+    let commit_res = if first_err.is_none() && !panicked { Some(catch_unwind(AssertUnwindSafe(|| writer.commit())).map(|r| r.is_ok()).unwrap_or(false)) } else { None };
+    if injected == 0 {
+        viol("C11:saturation-probe-inert", "the probe did not inject its fault (no worker open_write of the chosen component)".into());
+    } else if first_err.is_none() && commit_res == Some(true) {
+        viol("C11:worker-error-swallowed", format!("the only worker died of an I/O error while the pipeline was full; all {} add_document calls and the commit returned Ok", cap + 50));
+    }
+    // a blocked add woken by the worker's death is the (cap+2)-th; an earlier Err would mean the pipeline was never full
+    let saturated = first_err.map(|i| i + 1 >= target).unwrap_or(false);
+    vdir.set_hook(None);
+    vdir.with_state(|s| { s.fail_at = None; s.fault_filter = None; });
+    let r = catch_unwind(AssertUnwindSafe(move || drop(writer)));
+    if r.is_err() {
+        viol("C11:panic-in-drop", "dropping the writer whose worker died panicked".into());
+    }
+    let rec = catch_unwind(AssertUnwindSafe(|| -> Result<(), String> {
+        let mut w: IndexWriter = index.writer_with_num_threads(1, 15_000_000).map_err(|e| format!("Index::writer: {e:?}"))?;
+        let mut d = TantivyDocument::default();
+        d.add_u64(idf, 1_000_000);
+        d.add_text(body, "after recovery");
+        w.add_document(d).map_err(|e| format!("add: {e:?}"))?;
+        w.commit().map_err(|e| format!("commit: {e:?}"))?;
+        drop(w);
+        let c = content_of_storage(vdir.inner.clone(), idf)?;
+        if c.len() != 1 || !c.contains(&1_000_000) {
+            return Err(format!("index holds {} documents after the new writer's commit, expected exactly the new one", c.len()));
+        }
+        Ok(())
+    }));
+    match rec {
+        Ok(Ok(())) => {}
+        Ok(Err(e)) => viol("C11:new-writer-cannot-continue", format!("after the saturated writer was dropped: {e}")),
+        Err(_) => viol("C11:panic-after-recovery", "the new writer panicked after the saturated writer was dropped".into()),
+    }
+    let mut counts = BTreeMap::new();
+    counts.insert(if saturated { "saturation-probe:blocked-add-returned-err" } else { "saturation-probe:err-before-saturation" }.to_string(), 1u64);
+    let res = json!({
+        "op_threads": [], "n_ops": 0, "n_faulted": injected, "faulted": [], "calls": [{"call": "add_document", "tok": "a", "res": format!("first Err at add #{first_err:?} of capacity {cap}"), "phases": ["wk"]}],
+        "violations": violations, "counts": counts, "any_err": first_err.is_some(), "gave_up": false, "phases": ["wk"],
+    });
+    std::fs::write(&out_path, res.to_string()).expect("write child result");
+}
+
 fn child_main(ctx: &mut Ctx, case: &Value) {
+    if case["probe"].as_str() == Some("saturate") {
+        saturate_probe(ctx, case);
+        return;
+    }
     let out_path = PathBuf::from(case["out"].as_str().expect("out"));
     let wl = Workload::from_json(&case["workload"]).expect("workload");
     let fault: Option<(u64, bool)> = case["k"].as_u64().map(|k| (k, case["perm"].as_bool().unwrap_or(false)));
@@ -1233,6 +1342,13 @@ fn absorb(ctx: &mut Ctx, case: &Value, outcome: ChildOutcome) -> Option<u64> {
             ctx.report.count("runs:child-could-not-be-started");
             None
         }
+        ChildOutcome::Timeout if case["probe"].as_str() == Some("saturate") => {
+            ctx.report.case(&canon, true);
+            ctx.report.count("saturation-probe:producer-stayed-blocked");
+            ctx.report.violation("oracle", "C11:add-blocks-forever-after-worker-death",
+                format!("the only indexing worker died of an injected I/O error while the document pipeline was full and the producer was blocked inside add_document: the call never returned (child killed after {} s) — the death of the worker did not disconnect the pipeline", case["timeout_s"]), case.clone());
+            None
+        }
         ChildOutcome::Timeout if case["hang_probe"].as_bool() == Some(true) => {
             ctx.report.case(&canon, true);
             ctx.report.count("hang-probe:blocked");
@@ -1307,7 +1423,7 @@ pub fn run(ctx: &mut Ctx) {
         "oracle (2): the last successful commit (or a later complete attempt) is readable and searchable after every step and after re-opening; validate_checksum clean; after a commit that returned Err the storage denotes the last successful commit — or exactly the attempted one, only when the failed operation was the directory sync right after that commit's meta.json rename (finding C11:commit-err-after-meta-rename-visible)".into(),
         "oracle (3): the fault is reported by the call whose phase it hit or by the next commit (worker), or confined to a merge, or an ignored GC failure (file stays managed), or fails one reload".into(),
         "oracle (4): after rollback / drop of the failed writer a new writer opens, adds and commits".into(),
-        "oracle (5): no panic escapes an API call; the child process neither aborts nor exceeds the wall-clock limit".into(),
+        "oracle (5): no panic escapes an API call; the child process neither aborts nor exceeds the wall-clock limit; with the pipeline saturated (worker parked in the failing operation, producer blocked in add_document) the worker's death makes the blocked add_document return Err".into(),
     ];
     let workloads = if ctx.thorough() { let mut r = ctx.rng.fork(); thorough_workloads(&mut r) } else { quick_workloads() };
     let threads = std::thread::available_parallelism().map(|n| n.get()).unwrap_or(4).min(16);
@@ -1341,6 +1457,10 @@ pub fn run(ctx: &mut Ctx) {
                 cases.push(json!({"workload": w.to_json(), "k": k, "perm": false, "policy": "B"}));
             }
         }
+    }
+    // saturated pipeline: worker death must wake the blocked producer (quick: one component, thorough: three)
+    for v in 0..(if ctx.thorough() { 3 } else { 1 }) {
+        cases.push(json!({"workload": {"name": format!("saturate-{v}")}, "probe": "saturate", "variant": v, "k": 0, "perm": false, "policy": "-", "timeout_s": 45}));
     }
     // thorough tier: the blocking add (runtime clause "does not hang") witnessed on the real code
     if ctx.thorough() {
